@@ -17,6 +17,7 @@ import (
 	"net"
 	"os"
 	"path/filepath"
+	"runtime"
 	"sort"
 	"strings"
 	"time"
@@ -42,9 +43,6 @@ type liveCfg struct {
 	rfc8198  bool
 	rfc9520  bool
 }
-
-// asyncRefresh is set while a prefetch-enabled instance serves aged entries.
-var asyncRefresh bool
 
 // AD verdicts the scripted upstream gives the `cnv` alias / `tgv` target (set per op).
 var stubAliasAD, stubTargetAD bool
@@ -430,11 +428,41 @@ func remoteFor(path int, proto string, v6 bool, n int) net.Addr {
 	return &net.UDPAddr{IP: ip, Port: 40000 + path}
 }
 
+// settle waits until every background refresh the last serve queued has
+// finished (write-back and cut publication included), so that a prefetch-due
+// hit has the same, reproducible consequence on every path: the next serve
+// sees the refreshed entry. No sleeping: it yields until the worker released
+// its claim.
+func settle() {
+	if live == nil || live.Cache == nil || liveC.prefetch == 0 {
+		return
+	}
+	claims := cache.VerifC05PrefetchClaims(live.Cache)
+	deadline := time.Now().Add(5 * time.Second)
+	for cache.VerifC05PrefetchBusy(live.Cache, claims) {
+		if time.Now().After(deadline) {
+			panic("c05: background refresh did not finish")
+		}
+		runtime.Gosched()
+	}
+}
+
+func rawSettled(pkt []byte, remote net.Addr) ([][]byte, bool, bool) {
+	defer settle()
+	return live.Raw(pkt, remote) // settle: deferred
+}
+
+func msgSettled(m *dns.Msg, remote net.Addr, proto string) *srvh.MsgWriter {
+	defer settle()
+	return live.Msg(m, remote, proto) // settle: deferred
+}
+
 // serve sends one packet through the entry of the given path.
 func serve(path int, pkt []byte, remote net.Addr, proto string) reply {
+	defer settle()
 	switch path {
 	case 0:
-		ws, handled, strict := live.Raw(pkt, remote)
+		ws, handled, strict := live.Raw(pkt, remote) // settle: deferred
 		r := fromWrites(ws, handled)
 		r.strict = strict
 		return r
@@ -443,7 +471,7 @@ func serve(path int, pkt []byte, remote net.Addr, proto string) reply {
 		if err := m.Unpack(pkt); err != nil {
 			return reply{class: "undecodable"}
 		}
-		return fromMsgWriter(live.Msg(m, remote, proto))
+		return fromMsgWriter(live.Msg(m, remote, proto)) // settle: deferred
 	default:
 		ws, inl, replayed := live.RawInline(pkt, remote)
 		// RawInline cannot report an undecodable body: classify like ServeRaw does.
@@ -631,11 +659,6 @@ func diff(na, nb string, a, b reply, sa, sb sentInfo) string {
 		}
 		for i := range ca {
 			d := int64(ca[i].ttl) - int64(cb[i].ttl)
-			if asyncRefresh {
-				// a prefetch-due hit queues a background refresh that may land
-				// between any two of the compared serves: TTLs are then not comparable
-				break
-			}
 			if d < -1 || d > 1 {
 				return fmt.Sprintf("ttl %s[%d] %s=%d %s=%d", s.n, i, na, ca[i].ttl, nb, cb[i].ttl)
 			}
@@ -886,11 +909,11 @@ func execQ(a map[string]string) vlib.Res {
 			pkt := ws.build(markers[p], nil, nil)
 			wr := remoteFor(p, "tcp", false, 60000+n) // a different client: warm-up must not spend the measured client's tokens
 			if warm == "raw" {
-				live.Raw(pkt, wr)
+				rawSettled(pkt, wr)
 			} else {
 				m := new(dns.Msg)
 				_ = m.Unpack(pkt)
-				live.Msg(m, wr, "tcp")
+				msgSettled(m, wr, "tcp")
 			}
 		}
 	}
@@ -907,12 +930,10 @@ func execQ(a map[string]string) vlib.Res {
 			ts.name = "tgv" + ts.name[i:]
 		}
 		for p := 0; p < 3; p++ {
-			live.Raw(ts.build(markers[p], nil, nil), remoteFor(p, "tcp", false, 63000+n))
+			rawSettled(ts.build(markers[p], nil, nil), remoteFor(p, "tcp", false, 63000+n))
 		}
 	}
 	warmCalls := live.Stub.Calls.Load() - callsBefore
-	asyncRefresh = liveC.prefetch > 0
-	defer func() { asyncRefresh = false }()
 
 	// measured: rep identical questions per path, path order chosen by the op
 	order := []int{0, 1, 2}
@@ -936,6 +957,7 @@ func execQ(a map[string]string) vlib.Res {
 			q0 := live.Stub.Calls.Load()
 			r := serve(p, pkt, remotes[p], proto)
 			if p == 2 && r.inline == "inline" && live.Stub.Calls.Load() != q0 && liveC.prefetch == 0 {
+				// (with prefetch on, the refresh worker's own upstream call lands in this window)
 				inlineBlocked = true
 			}
 			si := sentInfo{pkt: pkt, remote: remotes[p]}
@@ -963,7 +985,7 @@ func execQ(a map[string]string) vlib.Res {
 			pkt := fs.build(markers[p], nil, nil)
 			fr := remoteFor(p, "tcp", false, 61000+n)
 			c0 := live.Stub.Calls.Load()
-			ws, handled, _ := live.Raw(pkt, fr)
+			ws, handled, _ := rawSettled(pkt, fr)
 			freplies[p] = fromWrites(ws, handled)
 			fsent[p] = sentInfo{pkt: pkt, remote: fr}
 			fcalls[p] = live.Stub.Calls.Load() - c0
@@ -991,8 +1013,7 @@ func execQ(a map[string]string) vlib.Res {
 		// ladder only; anything that resolves upstream belongs to the worker replay
 		fail("c05/diff/inline-vs-replay", "an upstream resolution ran on the inline pass (no hand-off to a worker)")
 	}
-	asyncStub := liveC.prefetch > 0
-	if !asyncStub {
+	{
 		if calls[0] != calls[1] || calls[0] != calls[2] {
 			fail("c05/diff/side-effect", fmt.Sprintf("upstream calls raw=%d msg=%d inline=%d", calls[0], calls[1], calls[2]))
 		}
@@ -1057,7 +1078,7 @@ func execRaw(a map[string]string) vlib.Res {
 	if mo < 0 || mo >= len(pkt) {
 		// the three paths share one name: serve the packet once beforehand so
 		// that whatever it can put into the cache is there for all of them
-		live.Raw(pkt, remoteFor(0, "tcp", false, 62000+n))
+		rawSettled(pkt, remoteFor(0, "tcp", false, 62000+n))
 	}
 	// warm-up with a plain query for the same question when it parses
 	if a["warm"] == "raw" {
@@ -1071,7 +1092,7 @@ func execRaw(a map[string]string) vlib.Res {
 				w.SetEdns0(1232, true)
 				b, err := w.Pack()
 				if err == nil {
-					live.Raw(b, remoteFor(p, "tcp", false, 60000+n))
+					rawSettled(b, remoteFor(p, "tcp", false, 60000+n))
 				}
 			}
 		}
@@ -1109,7 +1130,7 @@ func execRaw(a map[string]string) vlib.Res {
 			verdict = "FAIL sig=" + sigOf(d) + " " + d
 		}
 	}
-	if liveC.prefetch == 0 && (calls[0] != calls[1] || calls[0] != calls[2]) && verdict == "ok" {
+	if (calls[0] != calls[1] || calls[0] != calls[2]) && verdict == "ok" {
 		verdict = fmt.Sprintf("FAIL sig=c05/diff/side-effect upstream calls raw=%d msg=%d inline=%d", calls[0], calls[1], calls[2])
 	}
 	tags := ""
